@@ -185,6 +185,7 @@ type Scenario struct {
 // countingReaderAt stands between a file-backed segment and its file: after `allow` further reads (when armed)
 // every read fails - a storage failure that starts between two reads of ONE call (C19).
 type countingReaderAt struct {
+	eof   bool // the injected failure carries the error value io.EOF
 	f     *os.File
 	armed int32
 	allow int64
@@ -194,10 +195,16 @@ func (c *countingReaderAt) ReadAt(p []byte, off int64) (int, error) {
 	switch atomic.LoadInt32(&c.armed) {
 	case 1: // permanent: after `allow` more reads every read fails
 		if atomic.AddInt64(&c.allow, -1) < 0 {
+			if c.eof {
+				return 0, io.EOF // what os.File.ReadAt says when the file was truncated underneath the segment
+			}
 			return 0, errors.New("verif: injected storage failure")
 		}
 	case 2: // transient: exactly the read after `allow` more reads fails, the storage recovers
 		if atomic.AddInt64(&c.allow, -1) == -1 {
+			if c.eof {
+				return 0, io.EOF
+			}
 			return 0, errors.New("verif: injected transient storage failure")
 		}
 	}
@@ -223,6 +230,7 @@ type segH struct {
 type Env struct {
 	fieldLists     map[string][]string // ONE caller-side []string per requested doc-value field list, handed to every DocumentValueReader call that asks for that list
 	persistCalls   int
+	ditLast        map[int]*keptEntry // the entry each live dictionary iterator returned last (the object itself + a copy)
 	statAdds       int
 	retFields      map[int]*retainedFields // Fields() results the caller kept (the slice as returned + a private copy)
 	retDocNums     map[int]*retainedNums   // DocumentNumbers() results the caller kept, by output file
@@ -263,7 +271,7 @@ func NewEnv(tr *Trace, sc *Scenario, workdir string) *Env {
 		pls: map[int]segment.PostingsList{}, its: map[int]segment.PostingsIterator{},
 		dvrs: map[int]segment.DocumentValueReader{}, bms: map[int]*roaring.Bitmap{},
 		objIDs: map[interface{}]int{}, nextObj: 1000000,
-		watchdog: 20 * time.Second * time.Duration(watchdogScale()), cov: map[string]int{}, itFlags: map[int]itFlags{}, docnums: map[int][][]int{}, dvrSeg: map[int]int{}, sawBlocked: new(bool), fieldLists: map[string][]string{}, retFields: map[int]*retainedFields{}, retDocNums: map[int]*retainedNums{}, dits: map[int]segment.DictionaryIterator{}}
+		watchdog: 20 * time.Second * time.Duration(watchdogScale()), cov: map[string]int{}, itFlags: map[int]itFlags{}, docnums: map[int][][]int{}, dvrSeg: map[int]int{}, sawBlocked: new(bool), ditLast: map[int]*keptEntry{}, fieldLists: map[string][]string{}, retFields: map[int]*retainedFields{}, retDocNums: map[int]*retainedNums{}, dits: map[int]segment.DictionaryIterator{}}
 }
 
 func (e *Env) Close() {
@@ -1109,6 +1117,7 @@ func (e *Env) doCloseFile(op *Op) {
 	h := e.seg(op.Seg)
 	if (op.Op == "fail_after" || op.Op == "fail_once") && h.cr != nil {
 		// the storage keeps working for op.N more reads, then fails - for good, or for one read only
+		h.cr.eof = op.N%2 == 1
 		atomic.StoreInt64(&h.cr.allow, int64(op.N))
 		if op.Op == "fail_once" {
 			atomic.StoreInt32(&h.cr.armed, 2)
@@ -1119,6 +1128,12 @@ func (e *Env) doCloseFile(op *Op) {
 		h.file.Close()
 	}
 	e.emit(M{"ev": "close_file", "seg": op.Seg})
+}
+
+type keptEntry struct {
+	en    segment.DictionaryEntry
+	term  string
+	count uint64
 }
 
 type retainedFields struct {
@@ -2201,6 +2216,7 @@ func (e *Env) doDitClose(op *Op) {
 	var err error
 	class := e.call(func() { err = it.Close() })
 	delete(e.dits, op.R)
+	delete(e.ditLast, op.R)
 	e.emit(M{"ev": "dit_close", "r": 500000 + op.R, "res": resKind(class, err)})
 }
 
@@ -2217,8 +2233,21 @@ func (e *Env) doDitNext(op *Op) {
 		en, err = it.Next()
 		if err == nil && en != nil {
 			res = M{"end": false, "term": B([]byte(en.Term())), "count": clampInt(en.Count())}
+			if e.ditLast != nil {
+				e.ditLast[op.R] = &keptEntry{en: en, term: en.Term(), count: en.Count()}
+			}
 		} else {
 			res = M{"end": true, "term": Bytes{}, "count": -1}
+			if e.ditLast != nil {
+				delete(e.ditLast, op.R)
+			}
+		}
+		// an entry is valid until the next call on ITS iterator: the entries other live iterators returned last must
+		// still read what they read (also when they come from the same Dictionary)
+		for r, k := range e.ditLast {
+			if r != op.R && e.dits[r] != nil && (k.en.Term() != k.term || k.en.Count() != k.count) {
+				res["others_changed"] = true
+			}
 		}
 	})
 	k := resKind(class, err)
